@@ -300,6 +300,26 @@ def run(repo, chk):
     # fitting (and computing the same) at every larger stack size (shared with C04.A14)
     c04.initialiser_reserve(repo, chk, 'C18.D5')
     c04._deferred(repo, Remap(chk, {'C04.A13': 'C18.D5'}))
+    if chk.__class__.__name__ == 'Check':
+        # ... and a stack array is counted in the frame model while its elements are evaluated (shared with C04.A2): otherwise
+        # the temporaries of an element overwrite stored elements at the smallest stack that passes the entry check - and only there
+        c04.run(repo, Remap(chk, {'C04.A2': 'C18.D5'}))
+        # one compilation leaves no trace for the next one in the same process: the same program typechecks the same way twice,
+        # and a program that overloads a builtin name does not change how a later program's calls are bound (interpreted)
+        from ..frontend import Frontend, typecheck, shape
+        fe = Frontend(repo)
+        a_src = 'empty write(const int[] xs) { write(xs.length); }\nempty @is_you() { write([7, 8]); }'
+        b_src = 'empty @is_you() { write([72, 105, 33]); }'
+        first = typecheck(fe, a_src)
+        second = typecheck(fe, a_src)
+        later = typecheck(fe, b_src)
+        fresh = typecheck(Frontend(repo), b_src)
+        ok = not isinstance(first, tuple) and not isinstance(later, tuple) and not isinstance(fresh, tuple) and \
+            shape(first) == shape(second) and shape(later) == shape(fresh)
+        chk.expect(ok, 'C18.D1', 'typechecking twice in one process', 'the second compilation of a program that overloads a builtin name, '
+                   f'or a later program, is treated differently: second={shape(second)[:2] if isinstance(second, tuple) else "ok"}, '
+                   f'later program {"differs from a fresh process" if not isinstance(later, tuple) else later[:3]}' if not ok else
+                   'same typed trees', 'hidc/ast/program.py')
     for cls, mnem in (('Hgeu', 'hgeu'), ('Hleu', 'hleu'), ('Hltu', 'hltu'), ('Hgtu', 'hgtu')):
         chk.expect(gf.asm_code.get(cls) == mnem, 'C18.D2', f'asm.{cls}.code', f'{gf.asm_code.get(cls)!r}: stack guards must be emitted as '
                    'unsigned comparisons, otherwise a run that fits a stack of S words fails at a larger S', 'hidc/codegen/asm.py')
